@@ -339,17 +339,41 @@ def mutation_selftest(prop):
     from tools.mutant_list import MUTANTS
     from tools.mutants import run as run_mutant
 
+    import random
+
     ms = [m for m in MUTANTS if m[0] == prop]
-    out = {"total": len(ms), "caught": 0, "missed": [], "other": []}
+    # wall-clock budget (a mutant costs one full quick check on a scratch copy): the mutants are taken in an order fixed by
+    # VERIF_SEED until the budget is used up; what was not run is reported, not guessed
+    budget = float(os.environ.get("PYVC_THOROUGH_BUDGET", "1500"))
+    random.Random(int(os.environ.get("VERIF_SEED", "0"))).shuffle(ms)
+    out = {"total": len(ms), "run": 0, "caught": 0, "missed": [], "other": [], "budget_s": budget}
+    t0 = time.time()
     with cf.ThreadPoolExecutor(max_workers=4) as ex:
-        for m, status, info in ex.map(run_mutant, ms):
-            if status == "caught":
-                out["caught"] += 1
-            elif status == "MISSED":
-                out["missed"].append(f"{m[1]}: {m[2][:80]}")
-                print(f"MUTANT-MISSED property={prop} {m[1]}: {m[2][:80]!r}")
-            else:
-                out["other"].append(f"{status}: {m[1]}: {m[2][:60]} {info[:120]}")
+        pending = []
+        it = iter(ms)
+        exhausted = False
+        while True:
+            while not exhausted and len(pending) < 4 and time.time() - t0 < budget:
+                m = next(it, None)
+                if m is None:
+                    exhausted = True
+                    break
+                pending.append(ex.submit(run_mutant, m))
+            if not pending:
+                break
+            done, _ = cf.wait(pending, return_when=cf.FIRST_COMPLETED)
+            for f in done:
+                pending.remove(f)
+                m, status, info = f.result()
+                out["run"] += 1
+                if status == "caught":
+                    out["caught"] += 1
+                elif status == "MISSED":
+                    out["missed"].append(f"{m[1]}: {m[2][:80]}")
+                    print(f"MUTANT-MISSED property={prop} {m[1]}: {m[2][:80]!r}")
+                else:
+                    out["other"].append(f"{status}: {m[1]}: {m[2][:60]} {info[:120]}")
+    out["not_run_for_budget"] = out["total"] - out["run"]
     return out
 
 
